@@ -25,7 +25,8 @@ TraceInit ==
 Judge(r) ==
   LET ok == ~("panic" \in DOMAIN r) /\ OpOk(r, Target(r)) /\ ExistsOk(r)
             /\ (Mode = "c09" /\ "regs" \in DOMAIN r => RegsOk(r.regs))
-      isf3 == ~ok /\ ~("panic" \in DOMAIN r) /\ ExistsOk(r) /\ StaleOnly(r)
+      \* F3 needs an emission for which the collector ran NO `enabled` pass (cached interest `always`): a pass rewrites every bit
+      isf3 == ~ok /\ ~("panic" \in DOMAIN r) /\ ExistsOk(r) /\ StaleOnly(r) /\ ~r.pass
   IN /\ Effect(r)
      /\ good' = (good /\ ok)
      \* an unsound whole-stack summary (C08) makes every later delivery in this history suspect
